@@ -12,15 +12,20 @@ open Q1t.Bits Q1t.Register Q1t.Proofs.Bits
 
 theorem flipAt_length (qs : List Bool) (q : Nat) : (flipAt qs q).length = qs.length := by simp [flipAt]
 
+theorem incAt_length (bits : List Nat) (qs : List Bool) : (incAt bits qs).length = qs.length := by
+  induction bits generalizing qs with
+  | nil => rfl
+  | cons b rest ih => simp only [incAt]; split <;> simp [ih, flipAt_length]
+
 theorem applyG_length {g : G} {bits : List Nat} {qs qs' : List Bool} (h : applyG g bits qs = some qs') :
     qs'.length = qs.length := by
-  cases g <;> rcases bits with _ | ⟨a, _ | ⟨b, _ | ⟨c, _ | ⟨d, rest⟩⟩⟩⟩ <;> simp [applyG] at h <;>
-    (try (subst h; first | rfl | (simp [flipAt]; done) | (simp only [flipAt]; split <;> simp) |
-      (split <;> simp [flipAt_length])))
+  cases g <;> rcases bits with _ | ⟨a, _ | ⟨b, _ | ⟨c, _ | ⟨d, _ | ⟨e, rest⟩⟩⟩⟩⟩ <;> simp [applyG] at h <;>
+    (try (subst h; first | rfl | (simp [flipAt, incAt_length]; done) | (simp only [flipAt]; split <;> simp) |
+      (split <;> simp [flipAt_length, incAt_length])))
 
 theorem applyG_isSome_indep (g : G) (bits : List Nat) (qs qs' : List Bool) :
     (applyG g bits qs).isSome = (applyG g bits qs').isSome := by
-  cases g <;> rcases bits with _ | ⟨a, _ | ⟨b, _ | ⟨c, _ | ⟨d, rest⟩⟩⟩⟩ <;> simp [applyG]
+  cases g <;> rcases bits with _ | ⟨a, _ | ⟨b, _ | ⟨c, _ | ⟨d, _ | ⟨e, rest⟩⟩⟩⟩⟩ <;> simp [applyG]
 
 /-- the listed classical bits of a multi-bit write are pairwise distinct -/
 def OpNodup : Op → Prop
